@@ -1,5 +1,6 @@
 import Proofs.C11
 import Proofs.Round
+import Proofs.LivenessFD
 import PikoModel.Generated.Facts
 /-!
 # C11 — Membership lifecycle: left, unreachable, recovered and expired nodes
@@ -424,5 +425,188 @@ example :
        mk "e" false false, mk "f" false false, mk "g" false false, mk "h" false false]
       (fun id => id ≠ "e") = ["a", "d", "f", "g"] := by
   decide
+
+/-! ## The detector drives the lifecycle: unreachable ⇒ out of routing ⇒ restored or forgotten
+
+`Proofs/LivenessFD.lean`: `suspectedBy d θ now id` is the comparison `UpdateLiveness` evaluates on
+detector `d` (`SuspicionLevel(id) > θ` at `time.Now() = now`, exact fraction; the pure counterpart
+of the stateful Go query - `C12_tick_is_literal_loop`), `livenessTick d θ now s =
+updateLiveness s (suspectedBy d θ now) now`.  When the verdict is `true`/`false` is C12's business
+(`C12_silent_peer_marked_unreachable`, `C12_steady_peer_stays_live`, `C12_heard_again_restored`);
+here the verdict is a hypothesis and the consequences are followed through the watcher into the
+routing table (`PikoModel/Cluster/Syncer.lean`: `Sync.run` feeds the notifications of a tick to the
+syncer callbacks) and to the expiry sweep.  `TableWF t`: the routing table is a map (distinct keys)
+of rows filed under their own id - `C11_routing_table_is_map`: true of a fresh syncer after any
+notification history whatsoever. -/
+section Detector
+open Piko.LivenessFD
+
+/-- the hypothesis `TableWF` of `C11_unreachable_excluded_from_routing` is always met: the routing
+table of a fresh syncer is, after **any** list of watcher notifications, a map with distinct keys
+whose rows are filed under their own id -/
+theorem C11_routing_table_is_map (l : Cluster.Node) (evs : List Event) :
+    TableWF ((Cluster.Sync.new l).run evs).table :=
+  tableWF_run evs _ (tableWF_new l)
+
+/-- **Excluded from routing while marked, a candidate again when restored.**  `p` is remembered,
+remote, not left, not flagged; the detector's verdict at `now` is "suspected".  The syncer has `p`
+in its routing table (row `row`; not pending).  Feeding the notifications of the tick to the syncer
+sets the row's status to `unreachable` and changes nothing else in it (`C04_status_tracks_flags`),
+and no lookup of any endpoint can return `p` (`C04_lookup_sound`: candidates are `active`).  If a
+later tick (any detector, any time) finds `p` not suspected, it notifies `OnReachable(p)`; the
+syncer sets the row `active` again, and `p` is a lookup candidate for every endpoint its row lists
+with a positive count. -/
+theorem C11_unreachable_excluded_from_routing
+    (s : CState) (hwf : WF s) (p : String) (n : NodeSt)
+    (hf : s.nodes.find p = some n) (hid : p ≠ s.localId) (hl : n.left = false) (hu : n.unreachable = false)
+    (d : FD.Detector) (θ now : Nat) (hs : suspectedBy d θ now p = true)
+    (sy : Cluster.Sync) (htw : TableWF sy.table) (row : Cluster.Node)
+    (hrow : sy.table.nodes.find p = some row) (hpl : p ≠ sy.table.localId) :
+    (sy.run (livenessTick d θ now s).2).table.nodes.find p = some { row with status := .unreachable } ∧
+    (∀ e, ∀ m ∈ (sy.run (livenessTick d θ now s).2).table.lookupCandidates e, m.id ≠ p) ∧
+    ∀ (d₂ : FD.Detector) (now₂ : Nat), suspectedBy d₂ θ now₂ p = false →
+      Event.reachable p ∈ (livenessTick d₂ θ now₂ (livenessTick d θ now s).1).2 ∧
+      ((sy.run (livenessTick d θ now s).2).run
+          (livenessTick d₂ θ now₂ (livenessTick d θ now s).1).2).table.nodes.find p =
+        some { row with status := .active } ∧
+      ∀ e c, row.endpoints.find e = some c → c > 0 →
+        { row with status := .active } ∈
+          ((sy.run (livenessTick d θ now s).2).run
+            (livenessTick d₂ θ now₂ (livenessTick d θ now s).1).2).table.lookupCandidates e := by
+  obtain ⟨n', h1, h2, h3, _, h5, _, _, h8, h9, _, _⟩ :=
+    tick_flags hwf (suspectedBy d θ now) now hf hid hl hs
+  obtain ⟨g1, g2, g3⟩ := run_live_row p (livenessTick d θ now s).2 sy row
+    (events_liveness_only s _ now) htw hrow hpl
+  have h8' : Event.unreachable p ∈ (livenessTick d θ now s).2 := h8.mpr hu
+  have h9' : Event.reachable p ∉ (livenessTick d θ now s).2 := h9
+  rw [lastStatus_unreachable p _ _ h8' h9'] at g3
+  refine ⟨g3, fun e => not_candidate g1 g3 (by simp) e, ?_⟩
+  intro d₂ now₂ hs₂
+  have hwf₁ : WF (livenessTick d θ now s).1 := wf_updateLiveness hwf _ now
+  have hlid₁ : (livenessTick d θ now s).1.localId = s.localId := (updateLiveness_basic hwf _ now).1
+  obtain ⟨n'', k1, _, _, _, _, _, _, k8, k9, _, _⟩ :=
+    tick_clears hwf₁ (suspectedBy d₂ θ now₂) now₂ h1 (by rw [hlid₁]; exact hid) h3 hs₂
+  obtain ⟨r1, r2, r3⟩ := run_live_row p (livenessTick d₂ θ now₂ (livenessTick d θ now s).1).2
+    (sy.run (livenessTick d θ now s).2) _ (events_liveness_only _ _ now₂) g1 g3
+    (by rw [g2]; exact hpl)
+  have k8' : Event.reachable p ∈ (livenessTick d₂ θ now₂ (livenessTick d θ now s).1).2 := k8.mpr h5
+  have k9' : Event.unreachable p ∉ (livenessTick d₂ θ now₂ (livenessTick d θ now s).1).2 := k9
+  rw [lastStatus_reachable p _ _ k8' k9'] at r3
+  refine ⟨k8', r3, fun e c hc hpos => ?_⟩
+  refine candidate r3 ?_ rfl hc hpos
+  show row.id ≠ _
+  rw [htw.2 (p, row) (AMap.mem_of_find hrow), r2, g2]; exact hpl
+
+/-- **Forgotten after the expiry period.**  `p` is flagged at `now` (verdict "suspected", not flagged
+before: expiry `now + nodeExpiry`) and **not heard from again**: every later tick (`later`: any
+detectors, any times) still finds it suspected.  Then those ticks leave `p`'s view untouched - in
+particular the expiry of the first flagging is kept, not pushed back - and `RemoveExpiredAt t`
+removes `p` and notifies `OnExpired(p)` for every `t > now + nodeExpiry`, and keeps it (no
+notification) for every `t ≤ now + nodeExpiry` (`C11_expiry`).  `nodeExpiry` is the regenerated
+`time.Minute`: 60 s.  (What the pinned tree does *after* that - a third node may re-teach `p` - is
+finding F2: `C11_relearn_counterexample`, `C11_forgotten_partial`.) -/
+theorem C11_silent_peer_forgotten
+    (s : CState) (hwf : WF s) (p : String) (n : NodeSt)
+    (hf : s.nodes.find p = some n) (hid : p ≠ s.localId) (hl : n.left = false) (hu : n.unreachable = false)
+    (d : FD.Detector) (θ now : Nat) (hs : suspectedBy d θ now p = true)
+    (later : List (FD.Detector × Nat)) (hlater : ∀ x ∈ later, suspectedBy x.1 θ x.2 p = true) :
+    WF (laterTicks θ (livenessTick d θ now s).1 later) ∧
+    (∃ n', (laterTicks θ (livenessTick d θ now s).1 later).nodes.find p = some n' ∧
+      n'.unreachable = true ∧ n'.expiry = some (now + nodeExpiry)) ∧
+    (∀ t, now + nodeExpiry < t →
+      (removeExpiredAt (laterTicks θ (livenessTick d θ now s).1 later) t).1.nodes.find p = none ∧
+      Event.expired p ∈ (removeExpiredAt (laterTicks θ (livenessTick d θ now s).1 later) t).2) ∧
+    (∀ t, t ≤ now + nodeExpiry →
+      (removeExpiredAt (laterTicks θ (livenessTick d θ now s).1 later) t).1.nodes.find p ≠ none ∧
+      Event.expired p ∉ (removeExpiredAt (laterTicks θ (livenessTick d θ now s).1 later) t).2) ∧
+    Facts.nodeExpiryNs = some nodeExpiry ∧ nodeExpiry = 60 * 1000000000 := by
+  obtain ⟨n', h1, _, h3, _, h5, h6, _⟩ := tick_flags hwf (suspectedBy d θ now) now hf hid hl hs
+  have hwf₁ : WF (livenessTick d θ now s).1 := wf_updateLiveness hwf _ now
+  have hlid₁ : (livenessTick d θ now s).1.localId = s.localId := (updateLiveness_basic hwf _ now).1
+  obtain ⟨a, _, c⟩ := laterTicks_keep later hlater hwf₁ h1 (by rw [hlid₁]; exact hid) h3 h5
+  have hexp := h6 hu
+  refine ⟨a, ⟨n', c, h5, hexp⟩, fun t ht => ?_, fun t ht => ?_, by decide, rfl⟩
+  · obtain ⟨e1, _, _, e4, _⟩ := C11_expiry _ a t p
+    exact ⟨e1 n' c ⟨_, hexp, ht⟩, e4.mpr ⟨n', c, _, hexp, ht⟩⟩
+  · obtain ⟨_, e2, _, e4, _⟩ := C11_expiry _ a t p
+    have hno : ¬ ∃ x, n'.expiry = some x ∧ x < t := by
+      rintro ⟨x, hx, hxt⟩
+      rw [hexp] at hx; cases hx; omega
+    refine ⟨by rw [e2 n' c hno]; simp, fun hmem => ?_⟩
+    obtain ⟨m, hm, hx⟩ := e4.mp hmem
+    rw [c] at hm; cases hm
+    exact hno hx
+
+/-- … with the verdicts discharged by the detector (`C12_completeness`): the detector has heard from
+`p` (arrivals `ts`) and never again - at the first tick and at every later one `p`'s window is
+still the one of `ts` (other peers' windows may change freely) - and every tick is at least
+`T = ⌊θ·sum/size⌋ + 1` after the last arrival.  Then `p` is flagged at the first tick and gone
+from the membership at every sweep later than `now + 60 s`. -/
+theorem C11_silent_peer_lifecycle
+    (s : CState) (hwf : WF s) (p : String) (n : NodeSt)
+    (hf : s.nodes.find p = some n) (hid : p ≠ s.localId) (hl : n.left = false) (hu : n.unreachable = false)
+    (b : Int) (N : Nat) (ts : List Nat) (hN : 0 < N) (hb : 0 < b)
+    (hinc : ts.Pairwise (· < ·)) (hne : ts ≠ []) (θ T : Nat)
+    (hT : (T : Int) = (θ : Int) * (FD.lastN N (FD.intervalsOf b ts)).sum / ((min ts.length N : Nat) : Int) + 1)
+    (d : FD.Detector) (hwin : d.windows.find p = some (FD.windowOf b N ts))
+    (now : Nat) (hnow : ts.getLast hne + T ≤ now)
+    (later : List (FD.Detector × Nat))
+    (hlater : ∀ x ∈ later, x.1.windows.find p = some (FD.windowOf b N ts) ∧ ts.getLast hne + T ≤ x.2)
+    (t : Nat) (ht : now + nodeExpiry < t) :
+    Event.unreachable p ∈ (livenessTick d θ now s).2 ∧
+    (removeExpiredAt (laterTicks θ (livenessTick d θ now s).1 later) t).1.nodes.find p = none ∧
+    Event.expired p ∈ (removeExpiredAt (laterTicks θ (livenessTick d θ now s).1 later) t).2 := by
+  have hs := suspected_of_silent hN hb hinc hne hwin θ T hT now hnow
+  obtain ⟨_, _, h3, _⟩ := C11_silent_peer_forgotten s hwf p n hf hid hl hu d θ now hs later
+    (fun x hx => suspected_of_silent hN hb hinc hne (hlater x hx).1 θ T hT x.2 (hlater x hx).2)
+  obtain ⟨_, _, _, _, _, _, _, _, h8, _⟩ := tick_flags hwf (suspectedBy d θ now) now hf hid hl hs
+  exact ⟨h8.mpr hu, h3 t ht⟩
+
+/-! ### non-vacuity
+
+Observer `n`; peer `p` announced both addresses and endpoint `e` with two upstreams, so the syncer
+has promoted it to the routing table as `active`.  The detector (production window 50, bootstrap
+2 × 100 ms, threshold `Facts.suspicionThreshold`) heard `p` at 0.1 s and 0.2 s: samples
+`[200 ms, 100 ms]`, mean 150 ms, so the level exceeds 20 once the silence exceeds 3 s. -/
+
+def c11Det : FD.Detector :=
+  (FD.newDetector 200000000 50).run [.report "p" 100000000, .report "p" 200000000]
+
+def c11State : CState := (applyDigest (init "n" "a") [⟨"p", "ap", 0, false⟩]).1
+
+def c11Sync : Cluster.Sync :=
+  (Cluster.Sync.new { id := "n", proxyAddr := "pn", adminAddr := "an" }).run
+    [.join "p", .upsert "p" Cluster.proxyAddrKey "pp", .upsert "p" Cluster.adminAddrKey "pa",
+     .upsert "p" (SyncerSpec.epKey "e") "2"]
+
+/-- the hypotheses of `C11_unreachable_excluded_from_routing` hold of this data at `now` = 3.2 s + 1 ns -/
+example : WF c11State ∧ TableWF c11Sync.table ∧
+    c11Sync.table.nodes.find "p" =
+      some { id := "p", status := .active, proxyAddr := "pp", adminAddr := "pa", endpoints := [("e", 2)] } ∧
+    c11Sync.pending.find "p" = none ∧
+    suspectedBy c11Det (Facts.suspicionThreshold.getD 0) 3200000000 "p" = false ∧
+    suspectedBy c11Det (Facts.suspicionThreshold.getD 0) 3200000001 "p" = true :=
+  ⟨wf_apply (wf_init _ _) (.applyDigest _), C11_routing_table_is_map _ _, by decide, by decide, by decide, by decide⟩
+
+/-- before the tick `p` is the lookup candidate for `e`; the tick's notification takes it out of
+every lookup; heard again (a report at 4 s, tick at 4.1 s) it is a candidate again; never heard
+again, it is still remembered at `now + 60 s` and forgotten (with `OnExpired`) one nanosecond later -/
+example :
+    let θ := Facts.suspicionThreshold.getD 0
+    let r := livenessTick c11Det θ 3200000001 c11State
+    let sy₁ := c11Sync.run r.2
+    let r₂ := livenessTick (c11Det.reportWithTimestamp "p" 4000000000).1 θ 4100000000 r.1
+    (c11Sync.table.lookupCandidates "e").map (·.id) = ["p"] ∧
+    r.2 = [.unreachable "p"] ∧
+    (sy₁.table.nodes.find "p").map (·.status) = some .unreachable ∧
+    sy₁.table.lookupCandidates "e" = [] ∧
+    r₂.2 = [.reachable "p"] ∧
+    ((sy₁.run r₂.2).table.lookupCandidates "e").map (fun m => (m.id, m.status)) = [("p", .active)] ∧
+    (removeExpiredAt r.1 (3200000001 + nodeExpiry)).2 = [] ∧
+    (removeExpiredAt r.1 (3200000002 + nodeExpiry)).2 = [.expired "p"] ∧
+    (removeExpiredAt r.1 (3200000002 + nodeExpiry)).1.nodes.keys = ["n"] := by
+  decide
+
+end Detector
 
 end Piko
